@@ -159,7 +159,10 @@ def r2(rep, crate, cfg):
         f = crate.fns.get(slab + "::" + nm)
         if not f:
             continue
-        rt = N(terms.TermBuilder(f).return_term())
+        # private helpers of the slab (e.g. a shared byte-range function) are expanded; physical_index stays symbolic
+        helpers = lambda path: path.startswith(slab + "::") and not path.endswith("::physical_index") and \
+            crate.fns[path].f.get("vis") not in ("pub", "public")
+        rt = N(terms.inline(terms.TermBuilder(f).return_term(), crate, depth=2, only=helpers))
         PH = ("call", slab + "::physical_index", (P(1), P(2)))
         start = N(("op", "Mul", PH, SS))
         rng = ("agg", "adt:std::ops::Range", (start, N(("op", "Add", start, SS))))
